@@ -37,6 +37,9 @@ type Call struct {
 	Open     bool // its process incarnation was killed before it returned
 }
 
+// Done is closed when the call has returned
+func (c *Call) Done() <-chan struct{} { return c.done }
+
 // Name is the task name of the call
 func (c *Call) Name() string { return fmt.Sprintf("handler:%s#%d", c.Kind, c.N) }
 
